@@ -314,7 +314,7 @@ def write_evidence(prop, tier, seed, obs, sym_results, nat_results, conf, violat
         'inlined_helpers': sorted({q for o in obs for q in o.inlined}),
         'obligation_list': [{'obligation': o.id, 'kind': o.kind, 'cases': len(o.cases), 'descr': o.descr[:300]} for o in obs],
         'units': [{'unit': unit_name(r), 'status': r['status'], 'paths': r.get('paths'), 'claims': r.get('claims'),
-                   'covers': r.get('covers')} for r in sym_results],
+                   'covers': r.get('covers'), 'wall_s': round(r.get('wall_s', 0), 2)} for r in sym_results],
         'undecided': undec,
         'bounded': bounded,
         'known_findings_hit': known_hits,
